@@ -593,6 +593,50 @@ theorem ledger_helpers_shape :
     Gen.Evidence.phasePropose = 3 ∧ Gen.Evidence.phaseElectionVote = 2 :=
   ⟨rfl, rfl, rfl, rfl, rfl, rfl, rfl, rfl, rfl, rfl, rfl⟩
 
+theorem addDSE_shape : Gen.Evidence.addDSE = [
+  "if err = ev.CheckBasic(); err != nil {",
+  "  return",
+  "}",
+  "ev.VoteA.Block, ev.VoteA.Results = nil, nil",
+  "ev.VoteB.Block, ev.VoteB.Results = nil, nil",
+  "badSigners, err := b.ProcessDSE(ev)",
+  "if err != nil {",
+  "  return err",
+  "}",
+  "if len(badSigners) == 0 {",
+  "  return lib.ErrInvalidEvidence()",
+  "}",
+  "if e.DeDuplicator == nil {",
+  "  e.DeDuplicator = make(<*ast.MapType>)",
+  "}",
+  "bz, _ := lib.Marshal(ev)",
+  "key1 := lib.BytesToString(bz)",
+  "if _, isDuplicate := e.DeDuplicator[key1]; isDuplicate {",
+  "  return",
+  "}",
+  "e.Evidence = append(e.Evidence, ev)",
+  "e.DeDuplicator[key1] = true",
+  "return"] := rfl
+
+theorem minEvidenceHeight_shape :
+    Gen.Evidence.loadMinimumEvidenceHeight = [
+      "historicalFSM, err := s.TimeMachine(s.Height())",
+      "if err != nil {",
+      "  return 0, err",
+      "}",
+      "defer historicalFSM.Discard()",
+      "valParams, err := historicalFSM.GetParamsVal()",
+      "if err != nil {",
+      "  return 0, err",
+      "}",
+      "height, unstakingBlocks := historicalFSM.Height(), valParams.GetUnstakingBlocks()",
+      "if height < unstakingBlocks {",
+      "  return 0, nil",
+      "}",
+      "return height - unstakingBlocks, nil"] ∧
+    Gen.Evidence.src_safeMulDiv = "if c == 0 { return 0 }; bigA := new(big.Int).SetUint64(a); bigB := new(big.Int).SetUint64(b); bigC := new(big.Int).SetUint64(c); num := new(big.Int).Mul(bigA, bigB); res := new(big.Int).Div(num, bigC); return res.Uint64()" :=
+  ⟨rfl, rfl⟩
+
 /-- the generated view equality is equality of all six fields -/
 theorem viewEquals_iff (x v : View) : viewEquals (some x) (some v) = true ↔ x = v :=
   ⟨viewEquals_eq, fun h => h ▸ viewEquals_refl x⟩
